@@ -12,7 +12,7 @@ def run(chk, ctx):
     from . import c01
     c01.stmt_arm_rule(chk, P, only=("ResetRandom",))
     # how often the interpreter evaluates an expression (each row entry, let and loop bound once; the while condition once per test)
-    c01.run(chk.only(("AUT:states-classified", "AUT:2:", "AUT:3:", "AUT:5:", "AUT:9:while-test")), ctx)
+    c01.run(chk.only(("AUT:states-classified", "AUT:2:", "AUT:3:", "AUT:5:", "AUT:9:while-test", "PLUMB:")), ctx)
     from . import c08
     c08.operand_evaluation_rule(chk, P)   # no operand (and so no draw inside it) is skipped or repeated: only ite is lazy   # every `resetRandom;` the program contains becomes a statement
     L = panrules.Lemmas(P, chk)
